@@ -547,3 +547,135 @@ theorem get_filter_ne (b : Bolt) (a c : Nat) (h : c ≠ a) :
       rw [ih]
 
 end SV.Toc
+
+namespace SV.Toc
+
+theorem goFileMode_lt (t : String) (m : Int) : goFileMode t m < 4294967296 := by
+  unfold goFileMode
+  simp only [modeSetuid, modeSetgid, modeSticky, modeDir, modeSymlink, modeDevice, modeCharDevice,
+    modeNamedPipe]
+  have hperm : ((m % 4096).toNat) % 512 < 512 := Nat.mod_lt _ (by decide)
+  generalize ((m % 4096).toNat) % 512 = perm at hperm
+  generalize (m % 4096).toNat = mm
+  split <;> split <;> split <;> (repeat' split) <;> omega
+
+/-! ## mode bits -/
+
+theorem bits_of (perm a b c ty : Nat) (hp : perm < 512) (ha : a ≤ 1) (hb : b ≤ 1) (hc : c ≤ 1)
+    (hty : ty = 0 ∨ ty = 2147483648 ∨ ty = 134217728 ∨ ty = 69206016 ∨ ty = 67108864 ∨ ty = 33554432) :
+    modeTypeBits (perm + (c * 8388608 + b * 4194304 + a * 1048576) + ty) = ty := by
+  unfold modeTypeBits bit modeDir modeSymlink modeDevice modeNamedPipe modeSocket modeCharDevice modeIrregular
+  generalize hn : perm + (c * 8388608 + b * 4194304 + a * 1048576) + ty = n
+  rcases hty with h | h | h | h | h | h <;> subst h
+  · have e31 : n / 2 ^ 31 % 2 = 0 := by omega
+    have e27 : n / 2 ^ 27 % 2 = 0 := by omega
+    have e26 : n / 2 ^ 26 % 2 = 0 := by omega
+    have e25 : n / 2 ^ 25 % 2 = 0 := by omega
+    have e24 : n / 2 ^ 24 % 2 = 0 := by omega
+    have e21 : n / 2 ^ 21 % 2 = 0 := by omega
+    have e19 : n / 2 ^ 19 % 2 = 0 := by omega
+    simp [e31, e27, e26, e25, e24, e21, e19]
+  · have e31 : n / 2 ^ 31 % 2 = 1 := by omega
+    have e27 : n / 2 ^ 27 % 2 = 0 := by omega
+    have e26 : n / 2 ^ 26 % 2 = 0 := by omega
+    have e25 : n / 2 ^ 25 % 2 = 0 := by omega
+    have e24 : n / 2 ^ 24 % 2 = 0 := by omega
+    have e21 : n / 2 ^ 21 % 2 = 0 := by omega
+    have e19 : n / 2 ^ 19 % 2 = 0 := by omega
+    simp [e31, e27, e26, e25, e24, e21, e19]
+  · have e31 : n / 2 ^ 31 % 2 = 0 := by omega
+    have e27 : n / 2 ^ 27 % 2 = 1 := by omega
+    have e26 : n / 2 ^ 26 % 2 = 0 := by omega
+    have e25 : n / 2 ^ 25 % 2 = 0 := by omega
+    have e24 : n / 2 ^ 24 % 2 = 0 := by omega
+    have e21 : n / 2 ^ 21 % 2 = 0 := by omega
+    have e19 : n / 2 ^ 19 % 2 = 0 := by omega
+    simp [e31, e27, e26, e25, e24, e21, e19]
+  · have e31 : n / 2 ^ 31 % 2 = 0 := by omega
+    have e27 : n / 2 ^ 27 % 2 = 0 := by omega
+    have e26 : n / 2 ^ 26 % 2 = 1 := by omega
+    have e25 : n / 2 ^ 25 % 2 = 0 := by omega
+    have e24 : n / 2 ^ 24 % 2 = 0 := by omega
+    have e21 : n / 2 ^ 21 % 2 = 1 := by omega
+    have e19 : n / 2 ^ 19 % 2 = 0 := by omega
+    simp [e31, e27, e26, e25, e24, e21, e19]
+  · have e31 : n / 2 ^ 31 % 2 = 0 := by omega
+    have e27 : n / 2 ^ 27 % 2 = 0 := by omega
+    have e26 : n / 2 ^ 26 % 2 = 1 := by omega
+    have e25 : n / 2 ^ 25 % 2 = 0 := by omega
+    have e24 : n / 2 ^ 24 % 2 = 0 := by omega
+    have e21 : n / 2 ^ 21 % 2 = 0 := by omega
+    have e19 : n / 2 ^ 19 % 2 = 0 := by omega
+    simp [e31, e27, e26, e25, e24, e21, e19]
+  · have e31 : n / 2 ^ 31 % 2 = 0 := by omega
+    have e27 : n / 2 ^ 27 % 2 = 0 := by omega
+    have e26 : n / 2 ^ 26 % 2 = 0 := by omega
+    have e25 : n / 2 ^ 25 % 2 = 1 := by omega
+    have e24 : n / 2 ^ 24 % 2 = 0 := by omega
+    have e21 : n / 2 ^ 21 % 2 = 0 := by omega
+    have e19 : n / 2 ^ 19 % 2 = 0 := by omega
+    simp [e31, e27, e26, e25, e24, e21, e19]
+
+def typeBitsOf (t : String) : Nat :=
+  if t = "dir" then modeDir else if t = "symlink" then modeSymlink
+  else if t = "char" then modeDevice + modeCharDevice else if t = "block" then modeDevice
+  else if t = "fifo" then modeNamedPipe else 0
+
+theorem modeTypeBits_go (t : String) (m : Int) : modeTypeBits (goFileMode t m) = typeBitsOf t := by
+  unfold goFileMode typeBitsOf
+  simp only []
+  have hperm : ((m % 4096).toNat) % 512 < 512 := Nat.mod_lt _ (by decide)
+  generalize ((m % 4096).toNat) % 512 = perm at hperm
+  generalize bit (m % 4096).toNat 11 = b1
+  generalize bit (m % 4096).toNat 10 = b2
+  generalize bit (m % 4096).toNat 9 = b3
+  have hfl : ((if b1 = true then modeSetuid else 0) + (if b2 = true then modeSetgid else 0) +
+      (if b3 = true then modeSticky else 0)) =
+      ((if b1 = true then 1 else 0) * 8388608 + (if b2 = true then 1 else 0) * 4194304 +
+        (if b3 = true then 1 else 0) * 1048576) := by
+    cases b1 <;> cases b2 <;> cases b3 <;> decide
+  rw [hfl]
+  apply bits_of perm _ _ _ _ hperm
+  · split <;> omega
+  · split <;> omega
+  · split <;> omega
+  · simp only [modeDir, modeSymlink, modeDevice, modeCharDevice, modeNamedPipe]
+    (repeat' split) <;> simp
+
+theorem fmIsRegular_go (t : String) (m : Int) : fmIsRegular (goFileMode t m) = decide (typeBitsOf t = 0) := by
+  unfold fmIsRegular; rw [modeTypeBits_go]
+
+
+theorem bit31_of (perm a b c ty : Nat) (hp : perm < 512) (ha : a ≤ 1) (hb : b ≤ 1) (hc : c ≤ 1)
+    (hty : ty = 0 ∨ ty = 134217728 ∨ ty = 69206016 ∨ ty = 67108864 ∨ ty = 33554432) :
+    bit (perm + (c * 8388608 + b * 4194304 + a * 1048576) + ty) 31 = false := by
+  unfold bit
+  generalize hn : perm + (c * 8388608 + b * 4194304 + a * 1048576) + ty = n
+  have : n / 2 ^ 31 % 2 = 0 := by
+    rcases hty with h | h | h | h | h <;> subst h <;> omega
+  simp [this]
+
+/-- only the type `dir` sets the directory bit -/
+theorem fmIsDir_go_false (t : String) (m : Int) (h : t ≠ "dir") : fmIsDir (goFileMode t m) = false := by
+  unfold fmIsDir goFileMode
+  simp only []
+  have hperm : ((m % 4096).toNat) % 512 < 512 := Nat.mod_lt _ (by decide)
+  generalize ((m % 4096).toNat) % 512 = perm at hperm
+  generalize bit (m % 4096).toNat 11 = b1
+  generalize bit (m % 4096).toNat 10 = b2
+  generalize bit (m % 4096).toNat 9 = b3
+  have hfl : ((if b1 = true then modeSetuid else 0) + (if b2 = true then modeSetgid else 0) +
+      (if b3 = true then modeSticky else 0)) =
+      ((if b1 = true then 1 else 0) * 8388608 + (if b2 = true then 1 else 0) * 4194304 +
+        (if b3 = true then 1 else 0) * 1048576) := by
+    cases b1 <;> cases b2 <;> cases b3 <;> decide
+  rw [hfl]
+  apply bit31_of perm _ _ _ _ hperm
+  · split <;> omega
+  · split <;> omega
+  · split <;> omega
+  · simp only [h, ↓reduceIte, modeSymlink, modeDevice, modeCharDevice, modeNamedPipe]
+    (repeat' split) <;> simp
+
+end SV.Toc
+
